@@ -235,10 +235,12 @@ Strip(fr) ==
   ELSE IF fr.k = "P" THEN <<"polygon">> \o FoldLeft(LAMBDA lst, q : lst \o <<q[1], q[2]>>, <<>>, fr.pts)
   ELSE IF fr.k = "R" THEN <<"rect", fr.s[1], fr.s[2], fr.e[1] - fr.s[1], fr.e[2] - fr.s[2], fr.r, B01(fr.b), B01(fr.f)>>
   ELSE <<"text", fr.cell[1] * CW + 2, fr.cell[2] * CH + 12, fr.s>>
+\* every element carries, as its last component, whether it is rendered inside a <g> (a contact group of
+\* more than one fragment that was not endorsed) or as a free element
 Flatten(results) ==
-  LET flat == FoldLeft(LAMBDA lst, rr : lst \o rr.cat \o rr.rects \o rr.singles
-                          \o FoldLeft(LAMBDA a2, GG : a2 \o GG, <<>>, rr.groups), <<>>, results)
-  IN [i \in 1..Len(flat) |-> Strip(flat[i])]
+  LET free == FoldLeft(LAMBDA lst, rr : lst \o rr.cat \o rr.rects \o rr.singles, <<>>, results)
+      grouped == FoldLeft(LAMBDA lst, rr : lst \o FoldLeft(LAMBDA a2, GG : a2 \o GG, <<>>, rr.groups), <<>>, results)
+  IN [i \in 1..Len(free) |-> Append(Strip(free[i]), 0)] \o [i \in 1..Len(grouped) |-> Append(Strip(grouped[i]), 1)]
 Output(rws) == LET cs == CellSeq(rws) sps == SpansOf(cs) IN
                Flatten([i \in 1..Len(sps) |-> SpanResult(cs, sps[i])])
 
